@@ -276,6 +276,9 @@ func Neg(a *Term) *Term {
 	if a.Op == ONeg {
 		return a.Args[0]
 	}
+	if a.Op == OConst && a.C != nil && a.C.Kind() == constant.Int {
+		return &Term{Op: OConst, C: constant.UnaryOp(token.SUB, a.C, 0), Typ: a.Typ}
+	}
 	if f, ok := isFloatConst(a); ok {
 		return &Term{Op: OConst, C: constant.MakeFloat64(-f), Typ: a.Typ}
 	}
@@ -296,6 +299,23 @@ func mkSum(args []*Term) *Term {
 			flat = append(flat, a.Args...)
 		} else {
 			flat = append(flat, a)
+		}
+	}
+	// a sum of integer constants only (loop counters of unrolled loops) folds exactly
+	if len(flat) > 1 {
+		all := true
+		for _, a := range flat {
+			if !isIntConst(a) {
+				all = false
+				break
+			}
+		}
+		if all {
+			acc := flat[0].C
+			for _, a := range flat[1:] {
+				acc = constant.BinaryOp(acc, token.ADD, a.C)
+			}
+			return &Term{Op: OConst, C: acc, Typ: flat[0].Typ}
 		}
 	}
 	sort.SliceStable(flat, func(i, j int) bool { return flat[i].Key() < flat[j].Key() })
@@ -349,7 +369,28 @@ func Mul(a, b *Term) *Term {
 	return t
 }
 
+func isIntConst(t *Term) bool {
+	return t.Op == OConst && t.C != nil && t.C.Kind() == constant.Int
+}
+
+var cmpTok = map[string]token.Token{"<": token.LSS, "<=": token.LEQ, ">": token.GTR, ">=": token.GEQ, "==": token.EQL, "!=": token.NEQ}
+
 func Bin(op string, a, b *Term) *Term {
+	// comparisons of two integer constants or two string constants fold
+	if tok, ok := cmpTok[op]; ok && a.Op == OConst && b.Op == OConst && a.C != nil && b.C != nil {
+		if (a.C.Kind() == constant.Int && b.C.Kind() == constant.Int) || (a.C.Kind() == constant.String && b.C.Kind() == constant.String) {
+			return &Term{Op: OConst, C: constant.MakeBool(constant.Compare(a.C, tok, b.C)), Typ: types.Typ[types.Bool]}
+		}
+	}
+	// s == "" is len(s) == 0: one canonical form
+	if op == "==" || op == "!=" {
+		for _, pr := range [][2]*Term{{a, b}, {b, a}} {
+			k, x := pr[0], pr[1]
+			if k.Op == OConst && k.C != nil && k.C.Kind() == constant.String && constant.StringVal(k.C) == "" && x.Op != OConst {
+				return Bin(op, Const(constant.MakeInt64(0), types.Typ[types.Int]), &Term{Op: OBuiltin, Str: "len", Args: []*Term{x}})
+			}
+		}
+	}
 	switch op {
 	case "+":
 		if isNumeric(a) || isNumeric(b) || true {
